@@ -4,7 +4,7 @@ harness/client_rig against scripted fake towers, traces judged by spec/Trace_Cli
 import clientlib as L
 
 PID = "C05"
-CLASSES = ["accept", "sub_error", "reject", "garbage", "badsig", "malsig"]
+CLASSES = ["accept", "sub_error", "reject", "garbage", "broken", "badsig", "malsig"]
 
 
 def scenarios(rng, tier, wd, stats):
@@ -17,7 +17,7 @@ def scenarios(rng, tier, wd, stats):
         keep = lambda s: not any(("garbage%d" % i) in s["name"] or ("malsig%d" % i) in s["name"] for i in range(3, 10))
         np_ = [s for s in np_ if keep(s)]
         rp = [s for s in rp if keep(s) and "garbage2" not in s["name"] and "malsig2" not in s["name"]]
-    sc += np_ + rp + L.fam_duplicates("c05") + L.fam_abandon("c05") + L.fam_kill("c05", rng, 8 if q else 120)
+    sc += np_ + rp + L.fam_duplicates("c05") + L.fam_abandon("c05") + L.fam_restart("c05") + L.fam_kill("c05", rng, 8 if q else 120)
     sc += L.fam_outage("c05", [1200] if q else [300, 1200, 2600, 4000])
     sc += L.tlc_scripts("c05", rng, wd, stats, 10 if q else 150)
     sc += L.fam_random("c05", rng, 10 if q else 250)
